@@ -886,8 +886,12 @@ impl<A: Zeroize + NewBytes + ResizableBytes + Lockable<A>> NewLockedFromSlice<A>
     fn from_slice_into_locked(
         src: &[u8],
     ) -> Result<Protected<Self, traits::ReadWrite, traits::Locked>, crate::error::Error> {
-        let mut res = Self::new_bytes().mlock()?;
-        res.resize(src.len(), 0);
+        // size the region first, so that the lock request that can actually be
+        // refused happens here and is reported as an error (resizing a locked
+        // region re-locks with an expect)
+        let mut new = Self::new_bytes();
+        new.resize(src.len(), 0);
+        let mut res = new.mlock()?;
         res.as_mut_slice().copy_from_slice(src);
         Ok(res)
     }
